@@ -8198,7 +8198,7 @@ class HCI_IsoDataPacket(HCI_Packet):
                 raise InvalidPacketError('ISO data packet truncated (SDU info)')
             packet_sequence_number, sdu_info = struct.unpack_from('<HH', packet, pos)
             iso_sdu_length = sdu_info & 0xFFF
-            packet_status_flag = (sdu_info >> 15) & 1
+            packet_status_flag = (sdu_info >> 14) & 0b11
             pos += 4
 
         iso_sdu_fragment = packet[pos:]
@@ -8232,7 +8232,7 @@ class HCI_IsoDataPacket(HCI_Packet):
             fmt += 'HH'
             args += [
                 self.packet_sequence_number,
-                self.iso_sdu_length | self.packet_status_flag << 15,
+                self.iso_sdu_length | self.packet_status_flag << 14,
             ]
         return struct.pack(fmt, *args) + self.iso_sdu_fragment
 
